@@ -386,6 +386,7 @@ fn op_sys(payload: &str) -> String {
             // in between (3..8 levels) the difference must not exceed the local variation.
             let (mut n, mut nd1, mut mx, mut nedge, mut nedge_diff, mut mx_edge) = (0usize, 0usize, 0u8, 0usize, 0usize, 0u8);
             let mut nsoft = 0usize;
+            let mut nfaint = 0usize;
             let mut at = String::from("null");
             let chan = |x: i64, y: i64, kk: usize| -> u8 {
                 if x < 0 || y < 0 || x >= w as i64 || y >= h as i64 {
@@ -423,6 +424,9 @@ fn op_sys(payload: &str) -> String {
                             nedge_diff += 1;
                         }
                         mx_edge = mx_edge.max(dd);
+                    } else if dd > 1 && d[o + 3] <= 16 && e[o + 3] <= 16 {
+                        // a sub-pixel sliver of the content sampled at the layer's integer shift but not on the canvas (or vice versa)
+                        nfaint += 1;
                     } else {
                         if dd > 1 {
                             if nd1 == 0 {
@@ -435,8 +439,8 @@ fn op_sys(payload: &str) -> String {
                 }
             }
             cmp = format!(
-                "{{\"n\":{},\"ndiff1\":{},\"max\":{},\"nsoft\":{},\"nedge\":{},\"nedge_diff\":{},\"max_edge\":{},\"at\":{}}}",
-                n, nd1, mx, nsoft, nedge, nedge_diff, mx_edge, at
+                "{{\"n\":{},\"ndiff1\":{},\"max\":{},\"nsoft\":{},\"nfaint\":{},\"nedge\":{},\"nedge_diff\":{},\"max_edge\":{},\"at\":{}}}",
+                n, nd1, mx, nsoft, nfaint, nedge, nedge_diff, mx_edge, at
             );
         }
     }
